@@ -1306,6 +1306,15 @@ def slice_sort_by_key(I, a, n):
 @model(r"^std::slice::join$|^std::slice::concat$")
 def slice_join(I, a, n):
     s = vec_as_slice(I, a, n)
+    parts = list(s.view())
+    if parts and all(isinstance(unbox(x), (RVec, SliceRef, list)) for x in parts):
+        # [&[T]]::concat() / join(&sep) over slices of values: a Vec<T> of clones
+        out, sepv = [], (list(items_of(unbox(a[1]))) if len(a) > 1 and isinstance(unbox(a[1]), (RVec, SliceRef, list)) else ([a[1]] if len(a) > 1 else []))
+        for k, x in enumerate(parts):
+            if k:
+                out += [clone_val(I, y) for y in sepv]
+            out += [clone_val(I, y) for y in items_of(unbox(x))]
+        return RVec(out)
     sep = chars_of(a[1]) if len(a) > 1 else []
     out = []
     for k, x in enumerate(s.view()):
